@@ -238,6 +238,9 @@ def time_sorted(repo, rep):
 
 
 def run(repo, rep, tier):
+    rep.rule("R-C13-10", "every parameter of the functions behind this property is read (file readers): none is accepted and then ignored")
+    from .shared import unused_parameters
+    unused_parameters(repo, rep, "R-C13-10", ("wavespectra.input", "wavespectra.core.swan"), "file readers")
     rep.rule("R-C13-1", "conversion steps carry the right factor and convention: per-radian -> per-degree (pi/180), J -> variance by rho g only for energy "
                         "units, cartesian -> nautical only for CDIR, WW3 station axes (dir, freq) -> (freq, dir)")
     rep.rule("R-C13-2", "spreading functions integrate to one (cartwright normaliser; NDBC constant term)")
